@@ -75,7 +75,9 @@ if _U:
                       "across the subtree recursion, chunk_state_update, compress_chunks_parallel and the CV stack; that the "
                       "kernels are deterministic functions of their value arguments and that all ISA variants of a family "
                       "compute the same function is assumed (C05)",
-        "units": {"quick": _units("C06", "quick") + [g("c_functional_text")], "thorough": _units("C06", "thorough") + [s("C06")]},
+        # guard `kernels`: the C library links the same kernel files as the crate's C / assembly flavours; the contracts of
+        # C06 assume them (C05), so a changed kernel file is re-validated here too (round 7, seeded change C06-13)
+        "units": {"quick": _units("C06", "quick") + [g("c_functional_text"), g("kernels")], "thorough": _units("C06", "thorough") + [s("C06")]},
         "explanation": "what contracts can decide about C06 without relating 7-round ARX outputs: state plumbing and shapes; "
                        "plus (thorough) one complete equivalence: the C portable compression function == the paper's",
         "uncovered": ["finalize_seek writes S[seek..seek+out_len] of the concatenated input END TO END (functional equality with "
